@@ -147,8 +147,33 @@ pub fn run(seed: u64, thorough: bool) -> u64 {
             }
         }
     }
+    // WIDE updates: more than 20 levels on a side (std's sort_unstable_by is an insertion sort - stable in effect - up to 20 elements
+    // and a real unstable sort beyond), prices repeated inside one update at the front / middle / back: as in a map, the LAST entry of a
+    // price decides (the constructors must keep equal prices in input order)
+    for width in [21usize, 30, 50, 100, 300] {
+        let dups: Vec<usize> = if thorough { (0..width).collect() } else { vec![0, 1, width / 3, width / 2, width - 2, width - 1] };
+        for dup_at in dups {
+            for zero_last in [false, true] {
+                let mut l: Vec<(i64, i64)> = (0..width).map(|i| (1000 + ((i * 7919) % width) as i64, 1 + (i % 3) as i64)).collect();
+                let p = l[dup_at].0;
+                l.push((p, 2));
+                l.insert(width / 2, (p, 5));
+                l.push((p, if zero_last { 0 } else { 3 }));
+                run_seq(&[(true, vec![(999, 1)], vec![(1001 + width as i64, 1)]), (false, l.clone(), vec![]), (false, vec![], l.clone()), (false, l.clone(), l)], &mut seen);
+                n += 1;
+            }
+        }
+    }
     // seeded random longer histories with re-snapshots
     let mut rng = Rng(0x9E3779B97F4A7C15 ^ seed.wrapping_mul(0xD1B54A32D192ED03) | 1);
+    for _ in 0..(if thorough { 3000 } else { 300 }) {
+        let width = 21 + rng.below(80) as usize;
+        let span = 1 + rng.below(width as u64 * 2) as i64;      // few distinct prices => many repeats
+        let mk = |rng: &mut Rng| -> Vec<(i64, i64)> { (0..width).map(|_| (1000 + rng.below(span as u64) as i64, rng.below(4) as i64)).collect() };
+        let (b1, a1, b2, a2) = (mk(&mut rng), mk(&mut rng), mk(&mut rng), mk(&mut rng));
+        run_seq(&[(true, vec![], vec![]), (false, b1, a1), (false, b2, a2)], &mut seen);
+        n += 1;
+    }
     let rounds = if thorough { 200_000 } else { 20_000 };
     for _ in 0..rounds {
         let len = 2 + rng.below(6) as usize;
